@@ -104,6 +104,12 @@ def run(ctx):
         ck.min_instances('functions reachable from the write API', len(seen), 20)
         # ---- d
         zw = prog.need_func('zck_write')
+        from ..rules.errdisc import state_machine_var
+        sm = state_machine_var(zw)
+        # the guard facts of C16-d are per path; an explicit state machine carries them through a state variable the
+        # fact domain does not follow: undecided, never a finding
+        ck.require(sm is None, 'zck_write keeps its progress in the state variable %s (%d constants): the guard rules of '
+                   'C16-d cannot follow an explicit state machine (undecided, not a finding)' % (sm or ('?', 0)))
         patterns = [
             ('min-ok', lambda op, lp, rp: op == '>=' and lp.endswith('dc_data_size') and rp.endswith('chunk_auto_min')),
             ('manual', lambda op, lp, rp: lp.endswith('manual_chunk') and op == '!=' and rp == '#0'),
